@@ -1,6 +1,7 @@
 //! Executor of the line protocol on the real crate, with the list-model oracle evaluated on the
 //! implementation's own observations (independent of Lean).
 use crate::backend::{self, apply, block_on, new_world, Files, Op, Shared, STORE_CH};
+use std::collections::BTreeSet;
 use crate::rng::{fnv, hex, unhex};
 use futures::FutureExt;
 use hypercore::replication::Event;
@@ -70,6 +71,10 @@ pub struct Handle {
     pub prev_oracle: Oracle,
     pub last_journal: Vec<Op>,
     pub subs: Vec<Box<dyn FnMut() -> Vec<String>>>,
+    /// block indices announced by Have events of the first subscriber / that became available
+    pub announced: BTreeSet<u64>,
+    pub became: BTreeSet<u64>,
+    pub sub_since_start: bool,
 }
 
 #[derive(Clone, Debug)]
@@ -168,7 +173,11 @@ impl Sim {
     fn drain(h: &mut Handle) -> String {
         if h.subs.is_empty() { return String::new(); }
         let mut parts = vec![];
-        for s in h.subs.iter_mut() { parts.push(s().join(",")); }
+        for (si, s) in h.subs.iter_mut().enumerate() {
+            let evs = s();
+            if si == 0 { for e in &evs { if let Some(r) = e.strip_prefix('H') { let mut it = r.trim_end_matches('d').split('+'); if let (Some(a), Some(b)) = (it.next().and_then(|x| x.parse::<u64>().ok()), it.next().and_then(|x| x.parse::<u64>().ok())) { for i in a..a + b { h.announced.insert(i); } } } } }
+            parts.push(evs.join(","));
+        }
         format!(" ev={}", parts.join(";"))
     }
 
@@ -218,7 +227,7 @@ impl Sim {
                 let r = Self::open_core(&world, Some(kp));
                 let (core, out) = match r { Ok(c) => (Some(c), "ok".to_string()), Err(e) => (None, e.chars().take(3).collect()) };
                 if core.is_none() { self.fail("new-failed", format!("creating a core failed: {out}")); }
-                let mut h = Handle { world, core, seed: Some(seed), writer: name.to_string(), oracle: Oracle { writable: true, exists: true, ..Default::default() }, prev_files: Default::default(), prev_oracle: Default::default(), last_journal: vec![], subs: vec![] };
+                let mut h = Handle { world, core, seed: Some(seed), writer: name.to_string(), oracle: Oracle { writable: true, exists: true, ..Default::default() }, prev_files: Default::default(), prev_oracle: Default::default(), last_journal: vec![], subs: vec![], announced: BTreeSet::new(), became: BTreeSet::new(), sub_since_start: false };
                 let j = Self::take_journal(&mut h);
                 let s = format!("{out} j={}", jfmt(&j));
                 h.last_journal = j;
@@ -231,7 +240,7 @@ impl Sim {
                 let world = new_world(Default::default());
                 let r = Self::open_core(&world, Some(PartialKeypair { public: pk, secret: None }));
                 let (core, out) = match r { Ok(c) => (Some(c), "ok".to_string()), Err(e) => (None, e.chars().take(3).collect()) };
-                let mut h = Handle { world, core, seed: None, writer: writer.to_string(), oracle: Oracle { writable: false, exists: true, ..Default::default() }, prev_files: Default::default(), prev_oracle: Default::default(), last_journal: vec![], subs: vec![] };
+                let mut h = Handle { world, core, seed: None, writer: writer.to_string(), oracle: Oracle { writable: false, exists: true, ..Default::default() }, prev_files: Default::default(), prev_oracle: Default::default(), last_journal: vec![], subs: vec![], announced: BTreeSet::new(), became: BTreeSet::new(), sub_since_start: false };
                 let j = Self::take_journal(&mut h);
                 let s = format!("{out} j={}", jfmt(&j));
                 h.last_journal = j;
@@ -362,16 +371,70 @@ impl Sim {
                 self.bump("op_ro");
                 format!("{out} j={}{ev}", jfmt(&j))
             }
+            ["evcheck", name] => {
+                // the union of announced ranges equals the set of blocks that became available
+                let Some(h) = self.h.get_mut(*name) else { return "nocore".into() };
+                if !h.sub_since_start || h.subs.is_empty() { return "ok".into(); }
+                let (a, b) = (h.announced.clone(), h.became.clone());
+                if a != b { self.fail("announced-union-wrong", format!("announced {:?} but the blocks that became available are {:?}", a.iter().take(40).collect::<Vec<_>>(), b.iter().take(40).collect::<Vec<_>>())); }
+                "ok".to_string()
+            }
             ["sub", name] => {
                 let Some(h) = self.h.get_mut(*name) else { return "nocore".into() };
                 let Some(core) = h.core.as_mut() else { return "nocore".into() };
                 let mut rx = core.event_subscribe();
+                if h.subs.is_empty() && h.oracle.len == 0 { h.sub_since_start = true; }
                 h.subs.push(Box::new(move || {
                     let mut v = vec![];
                     while let Ok(e) = rx.try_recv() { v.push(e); }
                     events_to_strings(v)
                 }));
                 format!("ok {}", h.subs.len())
+            }
+            ["secretscan", name, _seed] => {
+                // the 32-byte seed, its halves, and both halves of the expanded secret (SHA-512 of the seed)
+                let Some(h) = self.h.get_mut(*name) else { return "nocore".into() };
+                let Some(seed) = h.seed else { return "noseed".into() };
+                let f = backend::dump_files(&h.world);
+                use sha2::Digest;
+                let exp = sha2::Sha512::digest(seed);
+                let needles: Vec<(&str, Vec<u8>)> = vec![("seed", seed.to_vec()), ("seed-lo", seed[..16].to_vec()), ("seed-hi", seed[16..].to_vec()), ("expanded-lo", exp[..32].to_vec()), ("expanded-hi", exp[32..].to_vec())];
+                let mut found = vec![];
+                for (si, file) in f.iter().enumerate() {
+                    for (nm, nd) in &needles {
+                        if let Some(pos) = file.windows(nd.len()).position(|w| w == &nd[..]) { found.push(format!("{}@{}{}", nm, STORE_CH[si], pos)); }
+                    }
+                }
+                let out = if found.is_empty() { "clean".to_string() } else { format!("found {}", found.join(",")) };
+                let ro = !h.oracle.writable;
+                if ro && out != "clean" { self.fail("secret-on-disk", format!("after make_read_only the storage still contains secret key material: {out}")); }
+                self.bump("op_secretscan");
+                out
+            }
+            ["openkp", name] => {
+                // supplying a key pair together with open mode must be rejected
+                let Some(h) = self.h.get_mut(*name) else { return "nocore".into() };
+                let w = h.world.clone();
+                let seed = h.seed.unwrap_or([7u8; 32]);
+                let r = block_on(AssertUnwindSafe(async move {
+                    let st = backend::storage(&w).await.map_err(|e| format!("err:{e}"))?;
+                    let sk = SigningKey::from_bytes(&seed);
+                    HypercoreBuilder::new(st).key_pair(PartialKeypair { public: sk.verifying_key(), secret: Some(sk) }).open(true).build().await.map(|_| ()).map_err(|e| format!("err:{e}"))
+                }).catch_unwind());
+                Self::take_journal(h);
+                let out = match r { Ok(Ok(())) => "ok", Ok(Err(_)) => "err", Err(_) => "panic" };
+                if out != "err" { self.fail("open-with-keypair-accepted", format!("building with open(true) and a key pair returned {out}, expected an error")); }
+                out.to_string()
+            }
+            ["pk", name] => {
+                let Some(h) = self.h.get_mut(*name) else { return "nocore".into() };
+                let Some(core) = h.core.as_ref() else { return "nocore".into() };
+                let kp = core.key_pair();
+                let out = format!("ok {} secret={}", hex(kp.public.as_bytes()), kp.secret.is_some());
+                let expect_pk = self.h.get(&self.h[*name].writer).and_then(|w| w.seed).map(|s| SigningKey::from_bytes(&s).verifying_key());
+                let h = &self.h[*name];
+                if let Some(pk) = expect_pk { let e = format!("ok {} secret={}", hex(pk.as_bytes()), h.oracle.writable); if out != e { self.fail("key-pair-wrong", format!("key_pair() = {out}, expected {e}")); } }
+                out
             }
             ["dumpz", name] => {
                 // as `dump`, but without trailing zero bytes (a zero-length write past the end extends
@@ -466,11 +529,11 @@ impl Sim {
                 if proof.upgrade.is_some() { o.len = wlen; }
                 o.byte_len = truth.iter().take(o.len as usize).map(|b| b.len() as u64).sum();
                 o.held.resize(o.len as usize, false);
-                if let Some(b) = &proof.block { if (b.index as usize) < o.held.len() { o.held[b.index as usize] = true; } }
+                if let Some(b) = &proof.block { if (b.index as usize) < o.held.len() { o.held[b.index as usize] = true; h.became.insert(b.index); } }
             } else {
                 o.len = info.length; o.byte_len = info.byte_length;
                 o.held.resize(o.len as usize, false);
-                if let Some(b) = &proof.block { if (b.index as usize) < o.held.len() && h.core.as_ref().unwrap().has(b.index) { o.held[b.index as usize] = true; } }
+                if let Some(b) = &proof.block { if (b.index as usize) < o.held.len() && h.core.as_ref().unwrap().has(b.index) { o.held[b.index as usize] = true; h.became.insert(b.index); } }
             }
             let expect_ev = { let mut v = vec![]; if proof.upgrade.is_some() { v.push("U".to_string()); } if let Some(b) = &proof.block { v.push(format!("H{}+1", b.index)); } v.join(",") };
             let expect_ev = if h.subs.is_empty() { String::new() } else { format!(" ev={}", vec![expect_ev; h.subs.len()].join(";")) };
@@ -501,7 +564,7 @@ impl Sim {
         let o = &mut h.oracle;
         let start = o.len;
         let (expect, expect_ev) = if o.writable {
-            for b in &bs { o.byte_len += b.len() as u64; o.blocks.push(b.clone()); o.held.push(true); o.len += 1; }
+            for b in &bs { o.byte_len += b.len() as u64; o.blocks.push(b.clone()); o.held.push(true); h.became.insert(o.len); o.len += 1; }
             (format!("ok len={} bl={}", o.len, o.byte_len), if bs.is_empty() { String::new() } else { format!("U,H{}+{}", start, bs.len()) })
         } else { ("notwritable".to_string(), String::new()) };
         let expect_ev = if h.subs.is_empty() { String::new() } else { format!(" ev={}", vec![expect_ev; h.subs.len()].join(";")) };
